@@ -211,13 +211,49 @@ pub fn run_replica(ops: &[SOp], big: bool, local: &mut Local) -> Check {
     Ok(())
 }
 
+/// A replica that holds every block of a writer whose length is an exact multiple of the bitfield
+/// page size, except one; the gap is closed last (the contiguous length must jump to the length).
+#[derive(Clone, Debug, Serialize, Deserialize)]
+pub struct FullPageCase {
+    pub len: u32,
+    pub gap: u32,
+    pub reopen_before_closing: bool,
+}
+
+pub fn run_full_page(c: &FullPageCase, local: &mut Local) -> Check {
+    let mut sim = RSim::new(Disk::new())?;
+    sim.check_contig = true;
+    let mut scratch = Local::default();
+    sim.apply(&SOp::W(Op::Big(c.len)), &mut scratch)?;
+    sim.apply(&SOp::R(Req { target: Target::None, upgrade: Upg::Full, seek: Seek::None }), &mut scratch)?;
+    sim.quiet = true;
+    for i in 0..c.len as u64 {
+        if i == c.gap as u64 {
+            continue;
+        }
+        sim.apply(&SOp::R(Req { target: Target::BlockAt(i), upgrade: Upg::None, seek: Seek::None }), &mut scratch)?;
+    }
+    sim.quiet = false;
+    sim.check_replica(None, "all-but-one-held")?;
+    if c.reopen_before_closing {
+        sim.apply(&SOp::RReopen, &mut scratch)?;
+    }
+    sim.apply(&SOp::R(Req { target: Target::BlockAt(c.gap as u64), upgrade: Upg::None, seek: Seek::None }), &mut scratch)?;
+    sim.check_replica(None, "gap-closed")?;
+    sim.apply(&SOp::RReopen, &mut scratch)?;
+    local.class("full_page_replicas");
+    local.nontrivial(&(c.len, c.gap, c.reopen_before_closing));
+    Ok(())
+}
+
 pub fn run(ctx: &Ctx) {
     ctx.set_rule(
         "cases = (1) all C01 alphabet sequences up to length L with the contiguous-length oracle, (2) scaled writer histories: big \
          batches (8191..65537 one-byte blocks), small appends, clears (incl. ones placed at fixed fractions so they straddle page \
          edges), reopens and crash-recovery steps (crash after a generated number of the call's storage operations, recover, continue), \
-         (3) replicas fetching blocks pages apart from a 32769..70000-block writer with reopens and replica-side clears, (4) small \
-         random sessions with replica-side clears. Oracle after every step: has(i) == model for ALL i < length, false for \
+         (3) replicas fetching blocks pages apart from a 32769..70000-block writer with reopens and replica-side clears (single \
+         blocks and arbitrary ranges), (4) replicas holding all blocks but one of a writer whose length is an exact multiple of the \
+         page size, the gap closed last, (5) small random sessions with replica-side clears. Oracle after every step: has(i) == model for ALL i < length, false for \
          length..length+3, for 6 probes in each of the 5 following pages and for far probes; contiguous_length == first missing index. \
          Non-trivial = length > 32768 with >= 1 reopen/crash recovery, or a replica holding blocks on >= 2 bitfield pages, or a clear \
          strictly inside the contiguous prefix followed by a reopen.",
@@ -239,11 +275,29 @@ pub fn run(ctx: &Ctx) {
     ctx.extra("exhaustive_stage", json!({"alphabet": ALPHABET, "max_len": l, "sequences": n, "exhaustive": true}));
     random_stage(ctx, "scaled", ctx.tier.pick(240, 5_000), scaled_strategy, |ops: &Vec<C8Op>, local| run_scaled(ops, local));
     random_stage(ctx, "big-replicas", ctx.tier.pick(64, 1_500), big_replica_strategy, |ops: &Vec<SOp>, local| run_replica(ops, true, local));
+    let mut fp = vec![
+        FullPageCase { len: 32768, gap: 5, reopen_before_closing: false },
+        FullPageCase { len: 32768, gap: 32767, reopen_before_closing: true },
+    ];
+    {
+        fp.extend([
+            FullPageCase { len: 65536, gap: 32768, reopen_before_closing: false },
+            FullPageCase { len: 65536, gap: 7, reopen_before_closing: true },
+            FullPageCase { len: 32768, gap: 0, reopen_before_closing: false },
+            FullPageCase { len: 8192, gap: 4000, reopen_before_closing: true },
+        ]);
+    }
+    let nfp = fp.len() as u64;
+    indexed_stage(ctx, "full-page-replicas", nfp, |i| fp[i as usize].clone(), run_full_page);
     random_stage(ctx, "small-replicas", ctx.tier.pick(4_000, 80_000), small_replica_strategy, |ops: &Vec<SOp>, local| run_replica(ops, false, local));
 }
 
 pub fn replay(case: &Value) -> Check {
     let mut l = Local::default();
+    if case.get("gap").is_some() {
+        let c: FullPageCase = serde_json::from_value(case.clone()).map_err(|e| Failure::new("bad-replay", e.to_string()))?;
+        return run_full_page(&c, &mut l);
+    }
     if let Ok(ops) = serde_json::from_value::<Vec<C8Op>>(case.clone()) {
         return run_scaled(&ops, &mut l);
     }
